@@ -97,6 +97,11 @@ fn execute(view: GraphView<'_>, scope: &NodeId, delta: &mut TickDelta) {
     interpret(&prog, &view, w, scope, &mut |op| delta.emit(op));
 }
 
+/// The shared executor as a plain fn pointer (for `ExecItem::new` on the policy surface).
+pub fn exec_fn() -> warp_core::ExecuteFn {
+    execute
+}
+
 pub fn make_rule(i: u8) -> RewriteRule {
     let matcher = match i {
         0 => m0,
